@@ -37,3 +37,20 @@ Proof.
   intros Ho R Hk E. destruct (m2_refines_m1_reachable _ _ _ _ _ _ _ Ho R Hk E) as [u H]. cbn [sstep] in H. unfold with_b in H.
   destruct (vals (abs s) !! h) as [v|]; [|done]. destruct (sv_kind v); try done. apply sok_inj in H as [? ?]. done.
 Qed.
+
+(* ---- whole histories ---- *)
+Inductive m2steps (orcs : nat -> oracle) : nat -> hst -> list op -> list retv -> hst -> Prop :=
+| m2nil n s : m2steps orcs n s [] [] s
+| m2cons n s o r s1 e ops rs s' : op_ok s o -> run_op (orcs n) o s = OK r s1 e -> m2steps orcs (S n) s1 ops rs s' -> m2steps orcs n s (o :: ops) (r :: rs) s'.
+Inductive m1steps : sst -> list op -> list retv -> sst -> Prop :=
+| m1nil t : m1steps t [] [] t
+| m1cons t o cap uniq r t1 ops rs t' : sstep cap uniq o t = SOk t1 r -> m1steps t1 ops rs t' -> m1steps t (o :: ops) (r :: rs) t'.
+(* every history of returning calls of the representation model, of any length, is a history of the reference model with the same return
+   values, ending in the abstraction of the state reached *)
+Theorem history_refinement orcs n s ops rs s' : (forall i, oracle_sane (orcs i)) -> reach orcs n s -> m2steps orcs n s ops rs s' -> m1steps (abs s) ops rs (abs s').
+Proof.
+  intros Ho R H. induction H as [n s|n s o r s1 e ops rs s' Hok E _ IH]; [constructor|].
+  destruct (m2_refines_m1_reachable _ _ _ _ _ _ _ Ho R Hok E) as [u Hu]. econstructor; [exact Hu|]. apply IH. by eapply reach_ok.
+Qed.
+Corollary history_refinement_from_empty orcs odd ops rs s' : (forall i, oracle_sane (orcs i)) -> m2steps orcs 0 (hst0 odd) ops rs s' -> m1steps sst0 ops rs (abs s').
+Proof. intros Ho H. rewrite <- (abs0 odd). eapply history_refinement; [done|constructor|done]. Qed.
